@@ -654,7 +654,9 @@ func (r *Reader) MarkdownWithRAGOptions(extractOpts ExtractOptions, mdOpts rag.M
 	return result.String(), nil
 }
 
-// findContentBounds finds the bounds of non-empty cells in a sheet.
+// findContentBounds finds the bounds of non-empty cells in a sheet. A cell
+// covered by a merged region (any cell of the region but its top-left) displays
+// nothing, whatever value the file still stores for it, and is not content.
 func (r *Reader) findContentBounds(sheet *Sheet) (minRow, maxRow, minCol, maxCol int) {
 	minRow = len(sheet.Rows)
 	maxRow = -1
@@ -663,7 +665,7 @@ func (r *Reader) findContentBounds(sheet *Sheet) (minRow, maxRow, minCol, maxCol
 
 	for rowIdx, row := range sheet.Rows {
 		for colIdx, cell := range row {
-			if !cell.IsEmpty() {
+			if !cell.IsEmpty() && (!cell.IsMerged || cell.IsMergeRoot) {
 				if rowIdx < minRow {
 					minRow = rowIdx
 				}
@@ -759,6 +761,10 @@ func (r *Reader) Document() (*model.Document, error) {
 					Text:    cell.Value,
 					RowSpan: cell.MergeRows,
 					ColSpan: cell.MergeCols,
+				}
+				// For merged cells, only the root cell carries the value
+				if cell.IsMerged && !cell.IsMergeRoot {
+					modelCell.Text = ""
 				}
 
 				// Mark first row as headers
